@@ -27,20 +27,53 @@ theorem vis_addTop (c : Ctxs) (xs : List Name) (x : Name) :
 
 /-! ### the contexts after a generic visit -/
 mutual
-theorem xE_ctx (env : Env) (loc : List Name) (c : Ctxs) : ∀ e : Expr, (xE env loc c e).2 = c.addTop (vW e)
-  | .name _ => by simp [xE, vW, addTop_nil]
-  | .const _ => by simp [xE, vW, addTop_nil]
-  | .node _ cs => by simp [xE, vW]; exact xEs_ctx env loc c cs
-  | .boolop _ => by simp [xE, vW, addTop_nil]
-  | .unary _ => by simp [xE, vW, addTop_nil]
-  | .lam _ b => by simp [xE, vW]; exact xE_ctx env _ c b
-  | .comp elt _ _ _ => by simp [xE, vW]; exact xE_ctx env _ c elt
-  | .walrus x v => by simp [xE, vW]; rw [xE_ctx env loc _ v, addTop_addTop]
-theorem xEs_ctx (env : Env) (loc : List Name) (c : Ctxs) : ∀ es : Exprs, (xEs env loc c es).2 = c.addTop (vWL es)
-  | .nil => by simp [xEs, vWL, addTop_nil]
-  | .cons e es => by
-    simp [xEs, vWL]
-    rw [xEs_ctx env loc _ es, xE_ctx env loc c e, addTop_addTop]
+theorem xE_ctx (env : Env) : ∀ (e : Expr) (loc : List Name) (c : Ctxs),
+    (xE env loc c e).2 = c.addTop (vW env.fx.lam env.fx.comp loc e)
+  | .name _, _, _ => by simp [xE, vW, addTop_nil]
+  | .const _, _, _ => by simp [xE, vW, addTop_nil]
+  | .node _ cs, loc, c => by simp only [xE, vW]; exact xEs_ctx env cs loc c
+  | .boolop _, _, _ => by simp [xE, vW, addTop_nil]
+  | .unary _, _, _ => by simp [xE, vW, addTop_nil]
+  | .lam _ b, loc, c => by simp only [xE, vW]; exact xE_ctx env b _ c
+  | .comp elt _ _ _, loc, c => by simp only [xE, vW]; exact xE_ctx env elt _ c
+  | .walrus x v, loc, c => by
+    simp only [xE, vW]
+    rw [xE_ctx env v loc _]
+    split
+    · simp
+    · rw [addTop_addTop]
+theorem xEs_ctx (env : Env) : ∀ (es : Exprs) (loc : List Name) (c : Ctxs),
+    (xEs env loc c es).2 = c.addTop (vWL env.fx.lam env.fx.comp loc es)
+  | .nil, _, _ => by simp [xEs, vWL, addTop_nil]
+  | .cons e es, loc, c => by
+    simp only [xEs, vWL]
+    rw [xEs_ctx env es loc _, xE_ctx env e loc c, addTop_addTop]
+end
+
+mutual
+theorem vW_sub_wAny (l k : Bool) : ∀ (e : Expr) (loc : List Name) (x : Name), x ∈ vW l k loc e → x ∈ wAny e
+  | .name _, _, x, h => by simp [vW] at h
+  | .const _, _, x, h => by simp [vW] at h
+  | .node _ cs, loc, x, h => by simp only [vW, wAny] at h ⊢; exact vWL_sub_wAnyL l k cs loc x h
+  | .boolop _, _, x, h => by simp [vW] at h
+  | .unary _, _, x, h => by simp [vW] at h
+  | .lam _ b, loc, x, h => by simp only [vW, wAny] at h ⊢; exact vW_sub_wAny l k b _ x h
+  | .comp elt _ _ _, loc, x, h => by
+    simp only [vW, wAny, List.mem_append] at h ⊢; exact Or.inl (vW_sub_wAny l k elt _ x h)
+  | .walrus y v, loc, x, h => by
+    simp only [vW, wAny, List.mem_append, List.mem_cons] at h ⊢
+    rcases h with h | h
+    · exact Or.inr (vW_sub_wAny l k v loc x h)
+    · split at h
+      · simp at h
+      · left; simpa using h
+theorem vWL_sub_wAnyL (l k : Bool) : ∀ (es : Exprs) (loc : List Name) (x : Name), x ∈ vWL l k loc es → x ∈ wAnyL es
+  | .nil, _, x, h => by simp [vWL] at h
+  | .cons e es, loc, x, h => by
+    simp only [vWL, wAnyL, List.mem_append] at h ⊢
+    rcases h with h | h
+    · exact Or.inr (vWL_sub_wAnyL l k es loc x h)
+    · exact Or.inl (vW_sub_wAny l k e loc x h)
 end
 
 /-! ### every name an expression reads is bound outside it or stored inside it -/
@@ -250,10 +283,12 @@ theorem xE_keep (env : Env) : ∀ (e : Expr) (loc bound : List Name) (c : Ctxs),
     · rw [xE_decFree env elt _ c hdf] at hd; simp at hd
   | .walrus y v, loc, bound, c, hb, hf, hg, d, hd => by
     simp only [xE] at hd
-    refine xE_keep env v loc bound (c.addTop [y]) ?_ (by simpa [freeOk] using hf) (by simpa [gV] using hg) d hd
+    refine xE_keep env v loc bound _ ?_ (by simpa [freeOk] using hf) (by simpa [gV] using hg) d hd
     intro x hx
     rcases hb x hx with h2 | h2
-    · exact Or.inl ((vis_addTop c [y] x).mpr (Or.inr h2))
+    · left; split
+      · exact h2
+      · exact (vis_addTop c [y] x).mpr (Or.inr h2)
     · exact Or.inr h2
 theorem xEs_keep (env : Env) : ∀ (es : Exprs) (loc bound : List Name) (c : Ctxs),
     (∀ x ∈ bound, c.vis x = true ∨ x ∈ loc) → freeOkL bound es = true → gVL env.fx es = true →
@@ -267,7 +302,7 @@ theorem xEs_keep (env : Env) : ∀ (es : Exprs) (loc bound : List Name) (c : Ctx
     · exact xE_keep env e loc bound c hb hf.1 hg.1 d hd
     · refine xEs_keep env es loc bound _ ?_ hf.2 hg.2 d hd
       intro x hx
-      rw [xE_ctx]
+      rw [xE_ctx env e loc c]
       rcases hb x hx with h2 | h2
       · exact Or.inl ((vis_addTop c _ x).mpr (Or.inr h2))
       · exact Or.inr h2
